@@ -179,7 +179,9 @@ def part_c(ctx, I, budget):
     cases = 50 if ctx.tier == "quick" else 400
     for it in range(cases):
         n_units = rng.randint(1, 7)
-        mode = rng.choice(["default", "groups", "fork"])
+        mode = rng.choice(["default", "groups", "fork", "edited"])
+        if mode == "edited" and n_units < 2:
+            mode = "default"
         c = rng.randint(1, 4)
         m = rng.randint(1, 5)
         ties = rng.random() < 0.25
@@ -188,6 +190,14 @@ def part_c(ctx, I, budget):
         if mode == "default":
             n_rows = n_units
             groups = list(range(n_units))
+        elif mode == "edited":
+            # the default one-row-per-unit provenance OBJECT, then some rows re-assigned in place to another unit's variable
+            n_rows = n_units
+            groups = list(range(n_units))
+            for _ in range(rng.randint(1, 2)):
+                groups[rng.randrange(n_units)] = rng.randrange(n_units)
+            if groups == list(range(n_units)):
+                groups[0] = 1
         else:
             n_rows = rng.randint(n_units, n_units + 5)
             groups = gen.rand_groups(rng, n_rows, n_units)
@@ -210,10 +220,12 @@ def part_c(ctx, I, budget):
             util = additive_utility(I, U, nl)
             ureq = {"utility": "custom", "util": U, "nulls": nl}
         ids = None
+        edits = None
         if mode == "default":
             provenance = None
             preq = {"nUnits": n_units, "default": True}
-            simple = True
+            edits = []
+            simple = None
         elif mode == "groups":
             idpool = sorted(rng.sample(range(-9, 50), n_units))
             idpool = [x if x != -1 else 77 for x in idpool]
@@ -224,6 +236,19 @@ def part_c(ctx, I, budget):
             provenance = np.array(ids)
             preq = {"nUnits": n_units, "groups": ids}
             simple = False
+        elif mode == "edited":
+            from props.common import UView
+            raw = P.Units(units=n_units, candidates=2)
+            provenance = P.Provenance(units=raw)
+            uv = UView(raw, list(range(n_units)))
+            for r_, g_ in enumerate(groups):
+                if g_ != r_:
+                    provenance[r_] = gen.build_expr(P, uv, {"eq": [g_, 1]})
+            # the model starts from its own default OBJECT and replays the same in-place edits; whether the fast path is taken is then
+            # decided by the model's flag (Ds.Prov.Obj), not told to it
+            preq = {"nUnits": n_units, "default": True}
+            edits = [{"op": "set", "i": r_, "e": {"eq": [g_, 1]}} for r_, g_ in enumerate(groups) if g_ != r_]
+            simple = None
         else:
             sizes = [groups.count(u) for u in range(n_units)]
             provenance = P.Provenance(units=n_units).fork(sizes)
@@ -248,7 +273,7 @@ def part_c(ctx, I, budget):
         finally:
             sh.BATCH_DISTANCE_MATRIX_SIZE = old_B
         ords = kern.orders_from(store, n_units, m)
-        req = {"op": "neighbor", "prov": preq, "simple": simple, "yTrain": y_train, "yTest": y_test,
+        req = {"op": "neighbor", "prov": preq, **({"simple": simple} if edits is None else {"edits": edits}), "yTrain": y_train, "yTest": y_test,
                "dist": [[kern.frs(x) for x in row] for row in dist.tolist()], "K": 1, **ureq}
         if ords is not None and ties:
             req["orders"] = ords
@@ -275,7 +300,7 @@ def part_c(ctx, I, budget):
                         return nlv[j]
                     if ties:
                         # nearest unit under the recorded unit order, then its first nearest row
-                        u = min(S, key=lambda x: ords[j].index(x))
+                        u = min((x for x in S if any(groups[r] == x for r in rows)), key=lambda x: ords[j].index(x))
                         rows = [r for r in rows if groups[r] == u]
                     best = min(rows, key=lambda r: (dist[r, j], r))
                     return Um[enc[y_train[best]]][j]
